@@ -160,7 +160,7 @@ def _iota_own_slot(prog, fn, reg, r):
     return False
 
 
-def eptr(rep, prog, fn, region):
+def eptr(rep, prog, fn, region, rule="C15.eptr-discipline"):
     fi = prog.index(fn)
     body = region.get("body")
     if not isinstance(body, dict):
@@ -168,6 +168,18 @@ def eptr(rep, prog, fn, region):
     for t in walk(body, into_lambdas=False):
         if t.get("k") != "CXXTryStmt":
             continue
+        # an exception is transported out of the region by catch(...) + std::current_exception(): a typed handler that rebuilds
+        # the exception (std::make_exception_ptr(e) of a caught base reference) copies it with its STATIC type - the caller
+        # receives a bare std::exception instead of the exception that was thrown
+        for h in t.get("handlers", []):
+            mk = [x for x in walk(h["body"]) if x.get("k") == "CallExpr" and x.get("callee") == "std::make_exception_ptr"]
+            if mk:
+                rep.violation(rule, prog, fn, mk[0], "exception re-created from a caught reference (sliced)",
+                              "the handler 'catch(%s)' inside the parallel region at line %s stores %s: make_exception_ptr copies the object with the static type of the handler parameter, so the dynamic type and message of the "
+                              "exception thrown by the worker (e.g. the initialisation exception) are lost before the caller sees it" % (h["type"], region.get("l"), short(mk[0], 50)))
+        if not any(h["type"] == "..." for h in t.get("handlers", [])) and any(x.get("k") == "CallExpr" and x.get("callee") in ("std::current_exception", "std::make_exception_ptr") for h in t.get("handlers", []) for x in walk(h["body"])):
+            rep.violation(rule, prog, fn, t, "no catch(...) in the transporting try",
+                          "the try block inside the parallel region at line %s transports exceptions to the caller but has no catch(...) handler: an exception of another type crosses the region boundary (std::terminate)" % region.get("l"))
         for h in t.get("handlers", []):
             if h["type"] != "...":
                 continue
@@ -185,7 +197,7 @@ def eptr(rep, prog, fn, region):
                         if rhs.get("k") == "CallExpr" and rhs.get("callee") == "std::current_exception" and lhs.get("k") == "DeclRefExpr":
                             var = lhs["ref"]
             if var is None:
-                rep.violation("C15.eptr-discipline", prog, fn, h, "catch(...) handler does more than store",
+                rep.violation(rule, prog, fn, h, "catch(...) handler does more than store",
                               "the catch(...) handler inside the parallel region at line %s must only store std::current_exception() under '#pragma omp critical'" % region.get("l"))
                 continue
             # rethrow right after the region, in the enclosing statement sequence
@@ -211,9 +223,9 @@ def eptr(rep, prog, fn, region):
                     break
             inside = any(x.get("k") in ("Var",) and x.get("did") == var["did"] for x in walk(body))
             if found and not inside:
-                rep.ok("C15.eptr-discipline", prog, fn, h, "catch(...) stores current_exception() into '%s' under critical; 'if(%s) rethrow_exception(%s)' follows the region" % (var["name"], var["name"], var["name"]))
+                rep.ok(rule, prog, fn, h, "catch(...) stores current_exception() into '%s' under critical; 'if(%s) rethrow_exception(%s)' follows the region" % (var["name"], var["name"], var["name"]))
             else:
-                rep.violation("C15.eptr-discipline", prog, fn, h, "stored exception not rethrown after region",
+                rep.violation(rule, prog, fn, h, "stored exception not rethrown after region",
                               "the exception stored in '%s' by the catch(...) handler of the region at line %s is not rethrown by an 'if(%s) std::rethrow_exception(%s)' directly after the region%s: the caller never sees the error"
                               % (var["name"], region.get("l"), var["name"], var["name"], " (variable is private to the region)" if inside else ""))
 
